@@ -3,7 +3,8 @@
    in the tree) driven along the chain-shaped programs of ChainProp.tla for every length
    1..MaxN: link_i returns d_(i+1), probes after every link; fired outermost first (S1),
    innermost first (S2), fired while paused and driven by unpause in both orders (S3, S4);
-   ending in a value or a raised exception; S1E: failures throughout.
+   ending in a value or a raised exception; S1E: failures throughout; with and without extra
+   callbacks before each link and after each link has been returned by its waiter's callback.
    TLC checks: never more than one activation of _runCallbacks (DepthOne) -- the chain is
    walked with the explicit list, whose length stays within the number of Deferreds --
    and, in lock step, that the invocations are those the reference interpreter predicts. *)
@@ -19,24 +20,35 @@ Seq1(n) == [i \in 1..n |-> i]
 LinkBeh(shape, kind, i, n) ==
     IF i < n THEN <<"retdef", i + 1>>
     ELSE IF shape = "S1E" \/ kind = "err" THEN <<"raise", 1>> ELSE <<"ret", 1>>
-Adds(shape, kind, n) ==
+Probe == <<"pass", 0>>
+HasPre(x)  == x \in {"pre", "both"}
+HasPost(x) == x \in {"post", "both"}
+\* build: (pre_i,) link_i, probe_i on every d_i
+Adds(shape, kind, x, n) ==
     Cat([i \in 1..n |->
+          (IF HasPre(x) THEN << <<"add", i, "both", Probe, Probe>> >> ELSE <<>>) \o
           << IF shape = "S1E" THEN <<"add", i, "eb", Thru, LinkBeh(shape, kind, i, n)>>
                              ELSE <<"add", i, "cb", LinkBeh(shape, kind, i, n), Thru>>,
-             <<"add", i, "both", <<"pass", 0>>, <<"pass", 0>>>> >>])
-Fires(order, k) == [j \in 1..Len(order) |-> <<"fire", order[j], k, 1>>]
-Script(shape, kind, n) ==
-    Adds(shape, kind, n) \o
-    CASE shape = "S1"  -> Fires(Seq1(n), "ok")
-      [] shape = "S1E" -> Fires(Seq1(n), "err")
-      [] shape = "S2"  -> Fires(Rev(Seq1(n)), "ok")
+             <<"add", i, "both", Probe, Probe>> >>])
+\* after link_i has returned d_(i+1): one more callback for d_(i+1)
+Late(x, i, n) == IF HasPost(x) /\ i < n THEN << <<"add", i + 1, "both", Probe, Probe>> >> ELSE <<>>
+Steps(order, op(_), x, n) == Cat([j \in 1..Len(order) |-> << op(order[j]) >> \o Late(x, order[j], n)])
+FireOk(i)  == <<"fire", i, "ok", 1>>
+FireErr(i) == <<"fire", i, "err", 1>>
+Unp(i)     == <<"unpause", i>>
+Script(shape, kind, x, n) ==
+    Adds(shape, kind, x, n) \o
+    CASE shape = "S1"  -> Steps(Seq1(n), FireOk, x, n)
+      [] shape = "S1E" -> Steps(Seq1(n), FireErr, x, n)
+      [] shape = "S2"  -> Steps(Rev(Seq1(n)), FireOk, x, n)
       [] shape \in {"S3", "S4"} ->
              Cat([i \in 1..n |-> << <<"pause", i>>, <<"fire", i, "ok", 1>> >>])
-             \o [j \in 1..n |-> <<"unpause", IF shape = "S3" THEN j ELSE n - j + 1>>]
+             \o Steps(IF shape = "S3" THEN Seq1(n) ELSE Rev(Seq1(n)), Unp, x, n)
 
-Init == \E n \in 1..MaxN, shape \in {"S1", "S2", "S3", "S4", "S1E"}, kind \in {"ok", "err"} :
+Init == \E n \in 1..MaxN, shape \in {"S1", "S2", "S3", "S4", "S1E"}, kind \in {"ok", "err"},
+           x \in {"none", "pre", "post", "both"} :
             /\ IInit([nd |-> n, fixed |-> FALSE, against |-> "abs"])
-            /\ script = Script(shape, kind, n)
+            /\ script = Script(shape, kind, x, n)
 
 Op == Head(script)
 DoAdd     == pc = "idle" /\ script # <<>> /\ Op[1] = "add" /\ IAdd(Op[2], Op[3], Op[4], Op[5]) /\ script' = Tail(script)
